@@ -1,9 +1,52 @@
 import LinfaSpec.Model.Proto
+import LinfaSpec.Model.Scalar
+import LinfaSpec.Model.Dbscan
+import LinfaSpec.Model.Optics
 
 namespace LinfaSpec.Drv.C08
 open LinfaSpec.Proto
 
-/-- stub: replaced when the property's model lands -/
-def handle (_toks : List String) : String := "bad-op"
+/-- neighbour function from the recorded `within_range` results (`nb=`, one inner list per point) -/
+def nbrsOf (nb : Array (List Nat)) (i : Nat) : List Nat := nb[i]?.getD []
+
+def showLabel : Option Nat → String
+  | none => "-"
+  | some c => toString c
+
+/-- `dbscan n= mp= zd= nb=`: labels, `-` for noise -/
+def handleDbscan (toks : List String) : Option String := do
+  let n ← argNat toks "n"; let mp ← argNat toks "mp"; let zd ← argNat toks "zd"
+  let nb ← argNats2 toks "nb"
+  if zd = 0 ∧ nb.length ≠ n then none
+  let f : Option (Nat → List Nat) := if zd = 1 then none else some (nbrsOf nb.toArray)
+  some ("ok " ++ showList showLabel (Dbscan.dbscan f mp n))
+
+def showOpt : Option Float → String
+  | none => "-"
+  | some x => showF64 x
+
+/-- `optics n= mp= zd= nb= nd=`: `nd` is aligned with `nb` (`nd[i][k]` = distance between
+point `i` and point `nb[i][k]`, as computed by the real `dist_fn`; the metrics are bitwise
+symmetric, so the pair is looked up in either row). -/
+def handleOptics (toks : List String) : Option String := do
+  let n ← argNat toks "n"; let mp ← argNat toks "mp"; let zd ← argNat toks "zd"
+  let nb ← argNats2 toks "nb"; let nd ← argF64s2 toks "nd"
+  if zd = 0 ∧ (nb.length ≠ n ∨ nd.length ≠ n) then none
+  if (nb.zip nd).any (fun (a, b) => a.length != b.length) then none
+  let nba := nb.toArray
+  let tab : Array (List (Nat × Float)) := ((nb.zip nd).map fun (a, b) => a.zip b).toArray
+  let look (i j : Nat) : Option Float := ((tab[i]?.getD []).find? fun p => p.1 == j).map (·.2)
+  let nan : Float := 0.0 / 0.0
+  let dist (i j : Nat) : Float := ((look i j).orElse fun _ => look j i).getD nan
+  let f : Option (Nat → List Nat) := if zd = 1 then none else some (nbrsOf nba)
+  let out := Optics.optics f dist mp n
+  some ("ok " ++ ";".intercalate (out.map fun e => s!"{e.index}:{showOpt e.core}:{showOpt e.reach}"))
+
+def handle (toks : List String) : String :=
+  let r := match toks with
+    | "dbscan" :: rest => handleDbscan rest
+    | "optics" :: rest => handleOptics rest
+    | _ => none
+  r.getD "bad-op"
 
 end LinfaSpec.Drv.C08
